@@ -1,5 +1,8 @@
 def install(world):
     import importlib
+    from .common import remote_cfg_inv
+    # ASSUMPTION (environment): every entry of the remote-entity table is a valid configuration
+    world.remote_cfg_invariant = lambda rc: remote_cfg_inv(rc)
     for name in MODULES:
         mod = importlib.import_module(f"contracts.{name}")
         for c in mod.CONTRACTS:
@@ -12,4 +15,4 @@ def install(world):
                 world.modular.add(c.fq)
 
 
-MODULES = ["tracker", "dest"]
+MODULES = ["tracker", "dest", "source"]
